@@ -143,7 +143,9 @@ CLAIMED = {
              "existed as it was, so everything observable through any older object (name, contents, volume, capacity, instruction revision, "
              "every well, the plate a slice points at) is unchanged; results are new cells; by induction nothing observable after a prefix of "
              "a history is changed by any continuation. Tie: correspondence of decisions, returned values AND the identity structure of "
-             "everything reachable from every variable. Recipe create_* steps, the intermediate states between adding steps, and later operations "
+             "everything reachable from every variable. Refinement (HeapRefine.v): each object-level operation (all transfer forms incl. both plate-to-plate "
+             "cases, remove / fill_to on slices, remove / fill_to / dilute on containers) returns objects REPRESENTING exactly the results of the "
+             "value-level model (Container.v, Plate.v) and fails with the same error otherwise. Recipe create_* steps, the intermediate states between adding steps, and later operations "
              "on baked results are decided by the fingerprint oracle on the implementation only (partial).",
              technique="Coq proof (Hoare-style frame rule over an append-only heap, induction over well loops and histories); differential correspondence incl. object-identity graph; fingerprint oracle around every call",
              design="5 C04"),
